@@ -43,7 +43,7 @@ def handle (j : Json) : R Json := do
     let sh := shifts zDist dz nL
     let c := lagrangeCoeffs z dz zDist nL sh
     pure <| obj [("shifts", jInts ((List.range nL).map sh)), ("coeffs", jRats ((List.range nL).map c)),
-                 ("centre_lo", jRat (zPts z dz sh ((nL - 1) / 2))), ("centre_hi", jRat (zPts z dz sh ((nL - 1) / 2 + 1)))]
+                 ("centre_lo", jRat (zPts z dz sh (centre nL))), ("centre_hi", jRat (zPts z dz sh (centre nL + 1)))]
   | "flux_step" | "field_sum" =>
     let nz ← fNat j "nz"; let nq ← fNat j "nq"; let nL ← fNat j "nL"
     let kn ← fRatList j "knots"; let deg ← fNat j "degree"
